@@ -55,6 +55,7 @@ type Op struct {
 }
 
 type Case struct {
+	ErrStyle string `json:"err_style,omitempty"` // how the storage words its own refusals (vkit.Store.refuse)
 	Router     string   `json:"router"`
 	Hosts      bool     `json:"hosts,omitempty"` // issuer derived from the Host header: two issuers share storage and keys
 	Alg        string   `json:"alg"`
@@ -172,6 +173,14 @@ func genOp(t *rapid.T, i int, hosts bool) Op {
 }
 
 func genCase(t *rapid.T) Case {
+	c := genCase0(t)
+	if rapid.Bool().Draw(t, "errstyled") {
+		c.ErrStyle = rapid.SampledFrom(vkit.ErrStyles).Draw(t, "errstyle")
+	}
+	return c
+}
+
+func genCase0(t *rapid.T) Case {
 	var c Case
 	c.Router = rapid.SampledFrom([]string{"provider", "legacy"}).Draw(t, "router")
 	c.Hosts = rapid.IntRange(0, 3).Draw(t, "hosts") == 0
@@ -1291,7 +1300,7 @@ func run(c Case) (res *vkit.Result) {
 		{ID: "ck", AppType: "web", AuthMethod: "private_key_jwt", GrantTypes: codeGrants, ResponseTypes: []string{"code"}, RedirectURIs: []string{redirectURI}, JWTAccessToken: jwt("ck"), Keys: map[string]string{"kk": "rsa3"}},
 		{ID: "svc", Secret: "secret-s", AppType: "web", AuthMethod: "client_secret_basic", GrantTypes: []string{vkit.GCC}, Service: true, JWTAccessToken: jwt("svc")},
 	}
-	pol := vkit.StorePolicy{}
+	pol := vkit.StorePolicy{ErrStyle: c.ErrStyle}
 	pol.TE.NoLivenessCheck = c.TELax
 	pol.RefreshIDs = c.RefreshIDs
 	if c.ExtraAud != "" {
